@@ -125,9 +125,12 @@ def rule_a(model, rep):
                 if isinstance(st, ast.Delete) and any(ast.unparse(t) == f"self.{g}" for t in st.targets):
                     state[g] = False
             if not isinstance(st, (ast.With, ast.If)):
-                if "super().__init__(" in txt:
+                is_guard_store = any(isinstance(st, ast.Assign) and ast.unparse(st.targets[0]) == f"self.{g}" for g in guards)
+                if not init_seen and not any(state.values()) and not is_guard_store and not isinstance(st, ast.Return):
+                    bad.append(("gap-before-init", st))
+                if ".__init__(" in txt:
                     init_seen = True
-                    if not any(state.values()):
+                    if not any(state.values()) and not any(k == "gap-before-init" and x is st for k, x in bad):
                         bad.append(("init", st))
                 if txt.startswith("self.__class__ ="):
                     # NOTE: the switch itself is an optimisation (the lazy class is a subclass of the target and behaves
@@ -287,6 +290,22 @@ def rule_cd(model, rep):
         rep.check(i_load is not None and i_pub is not None and i_load < i_pub, RC, site(UH, "BackendMixin.set_backend"), " ; ".join(order),
                   "the backend name is published after the loader has installed the implementation",
                   witness="a thread that sees __backend set skips set_backend() while _calc_checksum_backend is still the stub")
+    # every store to shared class state in set_backend lies inside the locked region
+    if len(w) == 1:
+        inside = {id(n) for n in ast.walk(w[0])}
+        nst = 0
+        for node in walk_no_nested(sb):
+            tg = node.targets if isinstance(node, ast.Assign) else ([node.target] if isinstance(node, (ast.AugAssign, ast.AnnAssign)) else [])
+            for t in tg:
+                for tt in (t.elts if isinstance(t, (ast.Tuple, ast.List)) else [t]):
+                    if isinstance(tt, ast.Attribute) and isinstance(tt.value, ast.Name) and tt.value.id == "cls":
+                        nst += 1
+                        rep.check(id(node) in inside, RC, site(UH, "BackendMixin.set_backend") + f" store {ast.unparse(tt)}", f"`{ast.unparse(node)[:70]}` outside `with _backend_lock`",
+                                  "shared backend-selection state (cls.__backend, cls._pending_*) is written only while _backend_lock is held",
+                                  witness="schedule: thread A is inside its loader holding the lock; thread B's set_backend() overwrites cls._pending_backend / _pending_dry_run before "
+                                          "blocking on the lock; A's loader reads B's values (wrong backend installed, or a dry run that installs nothing)")
+        if nst < 4:
+            rep.undecided(RC, site(UH, "BackendMixin.set_backend"), f"only {nst} class-state stores found, expected at least 4")
     # fast path reads outside the lock only to *return*
     first = next((st for st in sb.body if isinstance(st, ast.If)), None)
     ok = first is not None and "cls.__backend" in ast.unparse(first.test) and all(isinstance(x, ast.Return) for x in first.body)
@@ -316,6 +335,15 @@ def rule_e(model, rep):
     rep.check(0 < i_imp < i_re < i_reg, R, site(REG, "get_crypt_handler"), "__import__ ; re-check _handlers ; register",
               "after the import the table is re-checked before registering")
     rep.check("return _handlers[name]" in txt, R, site(REG, "get_crypt_handler"), "fast path", "loaded handlers are served from the table")
+    # the module object comes from the import machinery (which serialises on the per-module import lock), never from sys.modules
+    mods = [ast.unparse(n.value) for n in walk_no_nested(fn) if isinstance(n, ast.Assign) and ast.unparse(n.targets[0]) == "mod"]
+    rep.check(mods == ["__import__(modname, fromlist=[modattr], level=0)"], R, site(REG, "get_crypt_handler") + " module", "; ".join(mods) or "<none>",
+              "the handler module is obtained from __import__ only, so a module another thread is still executing is waited for",
+              witness="schedule: thread A is executing `import passlib.handlers.X` (module half initialised, already in sys.modules); thread B's "
+                      "get_crypt_handler() takes the partial module from sys.modules, getattr fails -> AttributeError / 'handler not found'")
+    runit = model.unit(REG)
+    sm = [n for n in ast.walk(runit.tree) if isinstance(n, ast.Attribute) and n.attr == "modules" and isinstance(n.value, ast.Name) and n.value.id == "sys"]
+    rep.check(not sm, R, site(REG, "<module>") + " sys.modules", f"{len(sm)} reference(s) to sys.modules (line {sm[0].lineno if sm else '-'})", "the registry never reads sys.modules")
     # _CryptConfig record caches: only idempotent dict caches
     C = "passlib.context"
     for q in ("_CryptConfig.get_record", "_CryptConfig._get_record_list"):
